@@ -68,6 +68,20 @@ def query (env : Env) (sel : Select) (hasSources : Bool) : Reply :=
   | .error e => .error e
   | .ok c => .page c
 
+/-! ## a held cursor and a request that names its id -/
+
+/-- what the provider keeps of a held cursor: the query text it was created from (`cur.state.Query`) and its filter -/
+structure Held where
+  query : Bytes
+  flt : Option Pred
+
+/-- `provider.GetOrCreate` with `state.Id > 0` found in the cache: `crsr.ApplyState` refuses a state whose query differs
+(`applyStateRefusesOtherQuery`) and a new cursor is created from the request's own query; `sel` is what the request's
+query parses to. The held text is the text of the request that created the cursor because the request buffer it points
+into is never handed to a pool (`rpcQueryRequestLifetime = "weak;kept"`, or the request is decoded with a copy). -/
+def getOrCreateHeld (env : Env) (held : Held) (query : Bytes) (sel : Select) (hasSources : Bool) : Except Err Cursor :=
+  if held.query == query then .ok (.real held.flt) else getOrCreate env sel hasSources
+
 /-! ## pipe path -/
 
 /-- `lql.BuildWhereExpFunc(text)`: `exp, err := ParseExpr(text); if err != nil { return nil, err }; return
